@@ -85,3 +85,107 @@ def guards_of_call(func_node, callee):
             walk(child, st)
     walk(func_node, [])
     return res
+
+
+# ---------------------------------------------------------------------------------------------
+# A tiny symbolic executor for straight-line methods with `if`s: the normal form of a method is,
+# per execution path, the final value of every attribute it assigns (as an expression over the
+# *initial* attributes and the parameters a0, a1, ...), the side-effecting calls it makes in order
+# and what it returns.  Renaming locals, reordering independent statements, introducing or
+# removing temporaries and logging do not change it; changing what is computed does.
+import copy
+
+
+def _is_logging(node):
+    """self.logger.<x>(...)"""
+    return (isinstance(node, ast.Expr) and isinstance(node.value, ast.Call)
+            and ast.unparse(node.value.func).startswith('self.logger.'))
+
+
+class _Subst(ast.NodeTransformer):
+    def __init__(self, env):
+        self.env = env
+
+    def visit_Name(self, node):
+        if isinstance(node.ctx, ast.Load) and node.id in self.env:
+            return copy.deepcopy(self.env[node.id])
+        return node
+
+    def visit_Attribute(self, node):
+        key = ast.unparse(node)
+        if isinstance(node.ctx, ast.Load) and key in self.env:
+            return copy.deepcopy(self.env[key])
+        return self.generic_visit(node)
+
+
+def _sub(expr, env):
+    return _Subst(env).visit(copy.deepcopy(expr))
+
+
+def _expr_nf(expr):
+    if isinstance(expr, ast.Compare):
+        return cmp_nf(expr)
+    return strip_self(expr)
+
+
+def sym_paths(func):
+    """-> list of normal-form strings, one per path (sorted)"""
+    env0 = {}
+    k = 0
+    for a in func.args.args:
+        if a.arg == 'self':
+            continue
+        env0[a.arg] = ast.Name(id=f'a{k}', ctx=ast.Load())
+        k += 1
+    paths = []
+
+    def run(stmts, env, conds, effects):
+        env = dict(env)
+        conds = list(conds)
+        effects = list(effects)
+        for idx, st in enumerate(stmts):
+            if isinstance(st, ast.Expr) and isinstance(st.value, ast.Constant):
+                continue
+            if _is_logging(st):
+                continue
+            if isinstance(st, ast.Assign) and len(st.targets) == 1:
+                val = _sub(st.value, env)
+                tgt = st.targets[0]
+                env[ast.unparse(tgt)] = val
+                continue
+            if isinstance(st, ast.AugAssign):
+                cur = _sub(ast.parse(ast.unparse(st.target), mode='eval').body, env)
+                val = ast.BinOp(left=cur, op=st.op, right=_sub(st.value, env))
+                env[ast.unparse(st.target)] = val
+                continue
+            if isinstance(st, ast.Expr):
+                v = st.value.value if isinstance(st.value, ast.Await) else st.value
+                effects.append('do ' + _expr_nf(_sub(v, env)))
+                continue
+            if isinstance(st, ast.Return):
+                ret = _expr_nf(_sub(st.value, env)) if st.value is not None else ''
+                finish(env, conds, effects, ret)
+                return
+            if isinstance(st, ast.If):
+                body = [x for x in st.body if not _is_logging(x)]
+                orelse = [x for x in st.orelse if not _is_logging(x)]
+                if not body and not orelse:
+                    continue
+                test = _sub(st.test, env)
+                c = _expr_nf(test)
+                rest = stmts[idx + 1:]
+                run(body + rest, env, conds + [c], effects)
+                run(orelse + rest, env, conds + ['not ' + c], effects)
+                return
+            effects.append('stmt ' + type(st).__name__ + ' ' + strip_self(st)[:120].replace('\n', ';'))
+        finish(env, conds, effects, None)
+
+    def finish(env, conds, effects, ret):
+        attrs = sorted(f'{k[5:]} := {_expr_nf(v)}' for k, v in env.items() if k.startswith('self.'))
+        s = 'when ' + (' & '.join(conds) if conds else 'always') + ': ' + '; '.join(attrs + effects)
+        if ret is not None:
+            s += f'; return {ret}'
+        paths.append(s)
+
+    run(func.body, env0, [], [])
+    return sorted(paths)
